@@ -108,6 +108,8 @@ func runC02(c *core.Ctx) error {
 
 	// ---- R02.7
 	checkIdentifierSafety(c, prog)
+	r8 := c.NewRule("R02.8", "S1", "reserved names seeded into uniqueness sets stay visible to the lookups they are meant for", 1)
+	checkUniquenessSetsKeepSeeds(c, r8, prog, pkgGen, pkgIR)
 
 	// ---- R02.4
 	return checkExpansionsTypeCheck(c)
